@@ -7,18 +7,21 @@ import vlib
 from checks import isa_common as ic
 
 PROGS = {1: json.load(open(os.path.join(vlib.VERIF, "programs", "progint.json"))),
-         2: json.load(open(os.path.join(vlib.VERIF, "programs", "progint2.json")))}
+         2: json.load(open(os.path.join(vlib.VERIF, "programs", "progint2.json"))),
+         3: json.load(open(os.path.join(vlib.VERIF, "programs", "progint3.json")))}
 MC = os.path.join(vlib.SPEC, "mc", "MC_Int.tla")
 
 
 def schedule_ops(img, sched, total):
+    """sched entries: t >= 0 = interrupt key before clock edge t; negative = continue key before edge (-1 - entry)"""
     ops = [{"op": "new"}, {"op": "load", "image": img, "ss": 16, "ps": 255}, {"op": "set_input", "k": 0, "v": 3}]
     done = 0
-    for t in sched:
+    for e in sched:
+        t = e if e >= 0 else -1 - e
         if t > done:
             ops.append({"op": "edge", "n": t - done})
             done = t
-        ops.append({"op": "key_int"})
+        ops.append({"op": "key_int"} if e >= 0 else {"op": "continue"})
     if total > done:
         ops.append({"op": "edge", "n": total - done})
     return ops
@@ -31,9 +34,9 @@ def run(tier, seed, replay):
     states = trans = 0
     cases = []
     per = {}
-    passes = [(1, "single"), (2, "single")] + ([(1, "pair"), (2, "pair")] if tier == "thorough" else [(2, "pair")])
+    passes = [(1, "single"), (2, "single"), (3, "single")] + ([(1, "pair"), (2, "pair"), (3, "pair")] if tier == "thorough" else [(2, "pair")])
     refs = {}
-    for which in (1, 2):
+    for which in (1, 2, 3):
         r = vlib.tlc(MC, os.path.join(vlib.SPEC, "mc", "MC_Int_ref%d.cfg" % which), workers=1, timeout=900, name="int-ref%d" % which)
         if r.violated:
             v.violation("int:ref:%d" % which, "the uninterrupted run of interrupt-suite program %d does not reach STOP on Micro.tla: %s" % (which, r.violated), {})
@@ -89,4 +92,4 @@ def run(tier, seed, replay):
     }
     return v.finish("model_checking", cov, ["TLC", "sampling semantics: a press during DI / the entry sequence is dropped or deferred by design; dead stack "
                                             "slots below the final SP and the routine's counter cell are masked in the comparison",
-                                            "two main x interrupt-routine programs (MUL/DIV loops, CALL/RET, PUSH/POP, PUSHF/POPF, EI/DI/RETI windows)"])
+                                            "three main x interrupt-routine programs (MUL/DIV loops, CALL/RET, PUSH/POP, PUSHF/POPF, EI/DI/RETI windows, key enable bit toggled while IE is set, a pausing STOP resumed by the continue key with the key pressed while paused)"])
